@@ -9,6 +9,7 @@ import (
 	"github.com/google/uuid"
 	"math/rand"
 	"net"
+	"reflect"
 	"runtime"
 	"sync"
 	"sync/atomic"
@@ -393,6 +394,28 @@ func runStreams(env *vk.Env) {
 						keptSha = append(keptSha, got)
 						log.add(map[string]any{"k": "keep", "g": g})
 					}
+				} else if k%8 == 3 {
+					// a struct type nobody has encoded before (a miss in the shared per-type field cache, at the same time as
+					// the other goroutines' misses and hits)
+					t := reflect.StructOf([]reflect.StructField{
+						{Name: "G", Type: reflect.TypeOf(int32(0)), Tag: `nbt:"g"`},
+						{Name: fmt.Sprintf("X%d_%d", g, k), Type: reflect.TypeOf([]byte(nil))},
+						{Name: "K", Type: reflect.TypeOf(int32(0)), Tag: `nbt:"k,omitempty"`},
+					})
+					v := reflect.New(t).Elem()
+					v.Field(0).SetInt(int64(g))
+					v.Field(1).SetBytes(payload)
+					v.Field(2).SetInt(int64(k))
+					ref := fmt.Sprint(g, k, sha(payload))
+					log.add(map[string]any{"k": "send", "g": g, "sha": sha([]byte(ref))})
+					var buf bytes.Buffer
+					err := nbt.NewEncoder(&buf).Encode(v.Interface(), "root")
+					back := reflect.New(t)
+					if err == nil {
+						_, err = nbt.NewDecoder(&buf).Decode(back.Interface())
+					}
+					got := fmt.Sprint(back.Elem().Field(0).Int(), back.Elem().Field(2).Int(), sha(back.Elem().Field(1).Bytes()))
+					log.add(map[string]any{"k": "recv", "g": g, "sha": sha([]byte(got)), "err": err != nil})
 				} else {
 					v := streamNBT{G: int32(g), K: int32(k), Data: payload, Name: fmt.Sprint("s", g, "-", k), L: []int64{int64(g), int64(k)}, M: map[string]int32{"g": int32(g)}}
 					ref, _ := json.Marshal(v)
